@@ -11,13 +11,16 @@ import (
 	"fmt"
 	"sort"
 	"strings"
+	"sync"
 
 	"github.com/AdguardTeam/urlfilter"
 	"github.com/AdguardTeam/urlfilter/filterlist"
+	"github.com/AdguardTeam/urlfilter/filterutil"
+	"github.com/AdguardTeam/urlfilter/lookup"
 	"github.com/AdguardTeam/urlfilter/rules"
 )
 
-func init() { gens["c01.matchall"] = genC01 }
+func init() { gens["c01.matchall"] = c01Gen }
 
 var (
 	c01ListIDs = []int{1, 2, 3, 7, 1000, 2147483647}
@@ -30,8 +33,41 @@ var (
 	c01Short = []string{"ad", "/ad", "ads", "/a/", "^ad^", "x", "_", "/b?", ".js", "pop", "|ws", "ws:", "wss:", "|http", "http", "|https://", "|http://", "https:/", "|ws://", "ws://", "|wss:/"}
 )
 
-// genC01RuleText: the rule kinds named by the property.
-func genC01RuleText(r *rng) string {
+// c01WindowCollisions returns pairs of distinct 5-letter strings with equal
+// FastHash (found once by a deterministic birthday search): a rule whose whole
+// shortcut is one of them shares its bucket with URLs containing the other.
+var (
+	c01CollOnce  sync.Once
+	c01CollCache [][2]string
+)
+
+func c01WindowCollisions() [][2]string {
+	c01CollOnce.Do(func() {
+		seen := map[uint32]string{}
+		letters := "abcdefghijklmnopqrstuvwxyz"
+		x := uint64(987654321)
+		n := lookup.VerifShortcutLength
+		for i := 0; i < 900000 && len(c01CollCache) < 16; i++ {
+			b := make([]byte, n)
+			for j := range b {
+				x = x*6364136223846793005 + 1442695040888963407
+				b[j] = letters[(x>>33)%26]
+			}
+			w := string(b)
+			h := filterutil.FastHash(w)
+			if o, ok := seen[h]; ok && o != w {
+				c01CollCache = append(c01CollCache, [2]string{o, w})
+			} else {
+				seen[h] = w
+			}
+		}
+	})
+
+	return c01CollCache
+}
+
+// c01GenRuleText: the rule kinds named by the property.
+func c01GenRuleText(r *rng) string {
 	d := pick(r, poolDomains)
 	switch r.n(12) {
 	case 0, 1: // shared-window long shortcuts
@@ -68,6 +104,12 @@ func genC01RuleText(r *rng) string {
 		}
 
 		return t
+	case 7: // a rule whose only window collides (djb2) with an unrelated window
+		if cs := c01WindowCollisions(); len(cs) > 0 {
+			return pick(r, cs)[r.n(2)] + pick(r, []string{"", "$script", "$domain=example.org"})
+		}
+
+		return "/banner"
 	case 6: // regex rules (with and without usable shortcut)
 		return pick(r, []string{"/banner[0-9]+/", "/ad[0-9]+|banner/", `/advert\.js/`, "/^https?:\\/\\/ads\\./", "/x/"})
 	default:
@@ -84,7 +126,7 @@ type c01Scenario struct {
 	note    string
 }
 
-func buildC01Scenario(r *rng) *c01Scenario {
+func c01BuildScenario(r *rng) *c01Scenario {
 	nLists := 1 + r.n(4)
 	nRules := 1 + r.n(12)
 	if r.chance(1, 4) {
@@ -99,7 +141,7 @@ func buildC01Scenario(r *rng) *c01Scenario {
 		if len(all) > 0 && r.chance(1, 8) {
 			t = pick(r, all) // duplicate rule text (same or another list)
 		} else {
-			t = genC01RuleText(r)
+			t = c01GenRuleText(r)
 		}
 		if _, err := rules.NewNetworkRule(t, 1); err != nil {
 			i--
@@ -169,11 +211,46 @@ func c01URL(r *rng, sc *c01Scenario) string {
 	}
 }
 
+// c01Source picks a source URL; for a rule with permitted domains mostly one
+// of them, a subdomain of one, or a concrete TLD for a wildcard domain.
+func c01Source(r *rng, f *rules.NetworkRule) string {
+	pd := f.GetPermittedDomains()
+	if len(pd) == 0 || r.chance(1, 4) {
+		return genSourceURL(r)
+	}
+	d := pick(r, pd)
+	if strings.HasSuffix(d, ".*") {
+		d = strings.TrimSuffix(d, "*") + pick(r, []string{"com", "co.uk", "de", "org", "notatld"})
+	}
+
+	return pick(r, []string{"http://", "https://"}) + pick(r, []string{"", "", "www.", "a.b."}) + d + pick(r, []string{"", "/", "/page"})
+}
+
 func c01Request(r *rng, sc *c01Scenario) *rules.Request {
-	if r.chance(1, 5) {
+	if r.chance(1, 6) {
 		return hostnameRequest(genDNSRequest(r, sc.texts))
 	}
-	q := rules.NewRequest(c01URL(r, sc), genSourceURL(r), pick(r, poolReqTypes))
+	f := pick(r, sc.nets)
+	var u string
+	switch r.n(5) {
+	case 0, 1:
+		t := f.RuleText
+		if i := strings.LastIndex(t, "$"); i > 0 {
+			t = t[:i]
+		}
+		u = urlAround(r, t)
+	case 2:
+		if cs := c01WindowCollisions(); len(cs) > 0 && r.chance(1, 3) {
+			p := pick(r, cs)
+			u = "http://" + pick(r, poolDomains) + "/" + p[r.n(2)] + pick(r, []string{"", "/", p[r.n(2)]})
+
+			break
+		}
+		u = c01URL(r, sc)
+	default:
+		u = c01URL(r, sc)
+	}
+	q := rules.NewRequest(u, c01Source(r, f), pick(r, poolReqTypes))
 	if r.chance(1, 6) {
 		q.SortedClientTags = genSortedTags(r)
 		q.ClientName = pick(r, append([]string{""}, poolClientNames...))
@@ -184,7 +261,7 @@ func c01Request(r *rng, sc *c01Scenario) *rules.Request {
 	return q
 }
 
-func sortedTextSet(ts []string) string {
+func bSortedTextSet(ts []string) string {
 	seen := map[string]bool{}
 	var u []string
 	for _, t := range ts {
@@ -202,15 +279,16 @@ func sortedTextSet(ts []string) string {
 	return "(" + strings.Join(items, ",") + ")"
 }
 
-func genC01(r *rng, n int, w *bufio.Writer) {
+func c01Gen(r *rng, n int, w *bufio.Writer) {
+	bReseed(r)
 	for i := 0; i < n; {
-		sc := buildC01Scenario(r)
+		sc := c01BuildScenario(r)
 		if len(sc.nets) == 0 {
 			continue
 		}
 		for j := 0; j < 6 && i < n; j, i = j+1, i+1 {
 			q := c01Request(r, sc)
-			ans := guardStr(func() string { return sortedTextSet(texts(sc.engine.MatchAll(q))) })
+			ans := guardStr(func() string { return bSortedTextSet(texts(sc.engine.MatchAll(q))) })
 			var pats []string
 			for _, f := range sc.nets {
 				if p := wpat(f, q.URL, q.Hostname); p != "" {
@@ -221,5 +299,36 @@ func genC01(r *rng, n int, w *bufio.Writer) {
 				sc.rulesW, wrequest(q), wpsl(q.Hostname, q.SourceHostname), waddrs(q.Hostname),
 				strings.Join(pats, " "), ans, q.URL, q.SourceURL, q.RequestType, q.IsHostnameRequest, sc.note)
 		}
+	}
+}
+
+// op `c01.hash`: filterutil.FastHash / FastHashBetween vs the model (the lookup
+// answers do not depend on the hash values, so the hash model needs its own tie).
+//   c01.hash x<s> i j = <FastHash(s)>:<FastHashBetween(s,i,j) | PANIC>
+func init() { gens["c01.hash"] = c01HashGen }
+
+func c01HashGen(r *rng, n int, w *bufio.Writer) {
+	bReseed(r)
+	for k := 0; k < n; k++ {
+		var s string
+		switch r.n(4) {
+		case 0:
+			s = pick(r, []string{"", "a", "ab", "/banner", "example.org", "\x00\xff\x80"})
+		case 1:
+			b := make([]byte, r.n(40))
+			for i := range b {
+				b[i] = byte(r.n(256))
+			}
+			s = string(b)
+		default:
+			s = genURL(r, nil)
+		}
+		i, j := r.n(len(s)+2), r.n(len(s)+3)
+		if r.chance(2, 3) && len(s) >= lookup.VerifShortcutLength {
+			i = r.n(len(s) - lookup.VerifShortcutLength + 1)
+			j = i + lookup.VerifShortcutLength
+		}
+		hb := guardStr(func() string { return fmt.Sprint(filterutil.FastHashBetween(s, i, j)) })
+		fmt.Fprintf(w, "c01.hash %s %d %d = %d:%s ## %q[%d:%d]\n", wb(s), i, j, filterutil.FastHash(s), hb, s, i, j)
 	}
 }
